@@ -150,14 +150,21 @@ def features(case, events, info):
                     tested.add(slot[w[2]])
         if k[1] == "wait" and slot.get(k[2]) in tested:
             f.append("key-tested-before")
-    msg = info.get("msg", "")
-    if "double free" in msg or "free(): invalid" in msg:
-        f.append("double-free")
-    elif "MPI_ERR_TRUNCATE" in msg:
-        f.append("err-truncate")
-    elif "Segmentation" in msg or "SIGSEGV" in msg:
-        f.append("segv")
     return f
+
+
+def signature(info):
+    """Class of the message of an aborted replay."""
+    msg = info.get("msg", "")
+    if "double free" in msg or "free(): invalid" in msg or "munmap_chunk" in msg or "corrupted size" in msg:
+        return "invalid-free"
+    if "MPI_ERR_TRUNCATE" in msg:
+        return "err-truncate"
+    if "Segmentation" in msg or "SIGSEGV" in msg:
+        return "segv"
+    if "CHECK_ACTION_PARAMS" in msg or "mandatory" in msg or "Not enough" in msg:
+        return "action-params"
+    return None
 
 
 def minimise(ctx, base, case, status, tmo):
@@ -239,6 +246,8 @@ def judge(ctx, base, name, case, tmo=300, bisect=True):
             key += ":selector=" + selector(case["cfg"])
         if overheads(case["cfg"]):
             key += ":overheads"
+    if signature(info2):
+        key += ":" + signature(info2)
     det = {k: v for k, v in info2.items() if k != "stats"}
     what = "%s np=%d: replay of the TI trace %s after '%s' (%d-event prefix of a %d-event program): %s" % (
         name, case["np"], st2, " | ".join(evs[-1][:3]), len(evs), len(case["events"]), det)
@@ -291,7 +300,16 @@ def excluded(cfg, np_):
 
 
 # Triggers of the open known findings (known_findings.d/C37.json), kept out of the random programs: see tigen.program/config.
-AVOID = ("zero-gather-scatter", "test-key-reuse", "smp-selectors", "scan-overheads")
+def _avoid():
+    import json
+    try:
+        with open(os.path.join(os.path.dirname(__file__), "..", "..", "..", "known_findings.d", "C37.json")) as f:
+            return tuple(sorted({e["avoid"] for e in json.load(f)["findings"] if e.get("status") == "open" and e.get("avoid")}))
+    except OSError:
+        return ()
+
+
+AVOID = _avoid()
 
 
 def replay(ctx, w):
